@@ -6,7 +6,12 @@ use geo_booleanop::verif_hooks as hooks;
 use geo_types::{Coord, LineString, MultiPolygon, Polygon};
 use std::panic::{catch_unwind, AssertUnwindSafe};
 
-pub const OPS: [Operation; 4] = [Operation::Intersection, Operation::Union, Operation::Difference, Operation::Xor];
+pub const OPS: [Operation; 4] = [
+    Operation::Intersection,
+    Operation::Union,
+    Operation::Difference,
+    Operation::Xor,
+];
 
 pub fn op_name(op: Operation) -> &'static str {
     match op {
@@ -78,7 +83,16 @@ pub fn to32(mp: &MP) -> MultiPolygon<f32> {
     MultiPolygon(
         mp.0.iter()
             .map(|p| {
-                let cv = |r: &LineString<f64>| LineString(r.0.iter().map(|c| Coord { x: c.x as f32, y: c.y as f32 }).collect());
+                let cv = |r: &LineString<f64>| {
+                    LineString(
+                        r.0.iter()
+                            .map(|c| Coord {
+                                x: c.x as f32,
+                                y: c.y as f32,
+                            })
+                            .collect(),
+                    )
+                };
                 Polygon::new(cv(p.exterior()), p.interiors().iter().map(cv).collect())
             })
             .collect(),
@@ -88,7 +102,16 @@ pub fn to64(mp: &MultiPolygon<f32>) -> MP {
     MultiPolygon(
         mp.0.iter()
             .map(|p| {
-                let cv = |r: &LineString<f32>| LineString(r.0.iter().map(|c| Coord { x: c.x as f64, y: c.y as f64 }).collect());
+                let cv = |r: &LineString<f32>| {
+                    LineString(
+                        r.0.iter()
+                            .map(|c| Coord {
+                                x: c.x as f64,
+                                y: c.y as f64,
+                            })
+                            .collect(),
+                    )
+                };
                 Polygon::new(cv(p.exterior()), p.interiors().iter().map(cv).collect())
             })
             .collect(),
